@@ -129,9 +129,12 @@ def failures(seed=0, tier="quick", only=None, **_):
     depth = 4 if tier == "quick" else 6
     results = []
     seen_known = set()
+    seed0 = seed
     for name, sc in scenarios().items():
         if only and name != only:
             continue
+        # scenarios with a listed known finding are explored with a fixed seed: the finding lists the failing histories
+        seed = 0 if known.has_scenario("natives.c06", name) else seed0
 
         def mk(sc=sc):
             return S.Sim(sc["asl"], sc.get("data", {"x": 1}), tasks=sc["tasks"])
@@ -151,12 +154,17 @@ def failures(seed=0, tier="quick", only=None, **_):
             for f in sc.get("forbid_calls", []):
                 if any(c[0] == f for c in sim.task_calls):
                     probs.append("C06/C08: task %r ran although its branch was cancelled" % f)
-            probs, hit = known.split("natives.c06", name, probs)
+            probs, hit = known.split("natives.c06", name, probs, sim=sim)
             seen_known.update(hit)
             return probs
         results.append((name, explore(mk, check, depth, seed=seed, extra=10)))
         results.append((name + "/reply-order", explore(mk, check, 4, seed=seed, extra=5, mode="replies-last")))
         results.append((name + "/replies", explore(mk, check, 4, width=2, seed=seed, extra=5, mode="replies")))
+        if name.startswith("nested-") or name == "map-batched-fails-early":
+            # deep interleavings: FIFO until the inner fan-out's tasks are outstanding, then every choice sequence from there
+            for warm in (7, 9, 11):
+                results.append(("%s/warm%d" % (name, warm), explore(mk, check, 4 if tier == "quick" else 5, width=4, seed=seed, extra=0,
+                                                                    warm=warm)))
     out = merge(results, "failing branch")
     out["known"] = sorted(seen_known)
     return out
